@@ -8,6 +8,9 @@ for meta_path in sorted(glob.glob("/verif/seeded/*/meta.json")):
     m = json.load(open(meta_path))
     if ids and m["id"] not in ids:
         continue
+    if m.get("obsolete"):
+        print(m["id"], "obsolete")
+        continue
     d = os.path.dirname(meta_path)
     T = tempfile.mkdtemp(prefix="seedchk_")
     try:
